@@ -175,6 +175,12 @@ def gen(rng, nrng, tier):
             order = int(nrng.integers(2, 13))
             if _well_conditioned(x, order):
                 yield ("burg", {"x": x, "order": order, "crit": [None, "AIC", "MDL"][N % 3], "exact": False, "dkind": "tone", "q": 1})
+    for i, sc in enumerate((1e-6, 1e-9, 1e6, 2.0 ** -40) if tier == "quick" else (1e-3, 1e-6, 1e-8, 1e-9, 1e-12, 1e6, 1e9, 2.0 ** -40)):
+        for cplx in (False, True):      # the estimator is homogeneous: every clause must hold at any amplitude
+            x = sc * _mk(nrng, int(nrng.integers(6, 40)), cplx, ["noise", "tone"][i % 2], False)
+            order = int(nrng.integers(1, 5))
+            if _well_conditioned(x, order):
+                yield ("burg", {"x": x, "order": order, "crit": None, "exact": False, "dkind": "scaled", "q": 1})
     n = 220 if tier == "quick" else 3000
     kinds = ["noise", "tone", "int", "zerointer", "trend"]
     skipped = 0
